@@ -338,6 +338,64 @@ pub fn run(a: &Args) -> i32 {
         let interrupted = !segs.iter().any(|x| x[0] == "whole" && x[1] == 1);
         emit("async_client", "call_abandoned_mid_write", segs, interrupted, json!({"bytes": bytes.len(), "abort_after_ms": delay_ms, "call2_err": r2.is_err()}), &mut out);
     }
+    // a NOTIFY abandoned mid-write (no pending entry exists for it, nothing else is in flight): the connection must
+    // fail all the same; a later notify or call must not follow the torn frame
+    for kind in ["async_client", "ws_client"] {
+        let l = TcpListener::bind("127.0.0.1:0").unwrap();
+        let addr = l.local_addr().unwrap();
+        let ws = kind == "ws_client";
+        let collector = std::thread::spawn(move || -> (Vec<u8>, Vec<Vec<u8>>) {
+            let (mut s, _) = l.accept().unwrap();
+            if ws {
+                let cfg = tungstenite::protocol::WebSocketConfig { max_frame_size: None, max_message_size: None, ..Default::default() };
+                let mut w = tungstenite::accept_with_config(s, Some(cfg)).unwrap();
+                std::thread::sleep(Duration::from_millis(900));
+                w.get_ref().set_read_timeout(Some(Duration::from_millis(700))).ok();
+                let mut msgs = vec![];
+                loop { match w.read() { Ok(tungstenite::Message::Binary(b)) => msgs.push(b.to_vec()), Ok(_) => {}, Err(_) => break } }
+                (vec![], msgs)
+            } else {
+                std::thread::sleep(Duration::from_millis(900));
+                (drain(&mut s, Duration::from_millis(600), Duration::from_secs(30)), vec![])
+            }
+        });
+        let body = keyed(big, 801);
+        let later_err;
+        if ws {
+            let c = rt.block_on(WebSocketClient::connect_with_limits(&format!("ws://{addr}"), repe::WebSocketLimits::unlimited())).unwrap();
+            let c1 = c.clone();
+            let h = rt.spawn(async move { let _ = c1.notify_with_formats("/k801", 1, Some(&body), 0).await; });
+            std::thread::sleep(Duration::from_millis(80));
+            h.abort();
+            let _ = rt.block_on(h);
+            later_err = rt.block_on(c.notify_with_formats("/k802", 1, Some(&keyed(8, 802)), 0)).is_err();
+            drop(c);
+        } else {
+            let c = rt.block_on(AsyncClient::connect(addr)).unwrap();
+            let c1 = c.clone();
+            let h = rt.spawn(async move { let _ = c1.notify_with_formats("/k801", 1, Some(&body), 0).await; });
+            std::thread::sleep(Duration::from_millis(80));
+            h.abort();
+            let _ = rt.block_on(h);
+            later_err = rt.block_on(c.notify_with_formats("/k802", 1, Some(&keyed(8, 802)), 0)).is_err();
+            drop(c);
+        }
+        let (bytes, msgs) = collector.join().unwrap();
+        if ws {
+            let mut segs = vec![];
+            for m in &msgs {
+                let key_by_id = index_keys(m);
+                let sg = segments(m, &|id| key_by_id.get(&id).copied().unwrap_or(0));
+                if sg.len() == 1 && sg[0][0] == "whole" { segs.push(sg[0].clone()); } else { segs.push(json!(["foreign", 0])); }
+            }
+            emit(kind, "notify_abandoned_mid_write", segs, false, json!({"messages": msgs.len(), "later_err": later_err}), &mut out);
+        } else {
+            let key_by_id = index_keys(&bytes);
+            let segs = segments(&bytes, &|id| key_by_id.get(&id).copied().unwrap_or(801));
+            let interrupted = !segs.iter().any(|x| x[0] == "whole" && x[1] == 1);
+            emit(kind, "notify_abandoned_mid_write", segs, interrupted, json!({"bytes": bytes.len(), "later_err": later_err}), &mut out);
+        }
+    }
     // callers queued on the writer behind the interrupted one: when it lets go of the writer they must not put a
     // frame after the torn one (async client: aborted caller; blocking client: write timeout)
     for delay_ms in [40u64, 120] {
